@@ -18,6 +18,7 @@ def make_tree(rng):
     rng.shuffle(names)
     good = names[: rng.randrange(2, 5)]
     shared_var = rng.random() < 0.5
+    alias_chain = (not shared_var) and rng.random() < 0.6
     same_pair_grey = rng.choice([138, 130, 150, 119, 160])
     for i, nme in enumerate(good):
         css = gen_css.stylesheet(rng)
@@ -33,6 +34,13 @@ def make_tree(rng):
             spell_ = [("#%02x%02x%02x" % (g, g, g), "#fff"), ("rgb(%d, %d, %d)" % (g, g, g), "white"), ("hsl(0, 0%%, %s%%)" % round(g / 2.55, 4), "#ffffff"),
                       ("rgba(%d, %d, %d, 1)" % (g, g, g), "rgb(255, 255, 255)")][i % 4]
             css += "\n.same-pair-%d { color: %s; background-color: %s }\n" % (i, spell_[0], spell_[1])
+        if alias_chain:
+            # every file declares the same alias text over its own base value: one base is readable on white, the next is not —
+            # what a reference resolved to in one file must not be reused for the same text in another
+            base = ["#595959", "#9a9a9a", "#1a1a1a", "#8c8c8c"][i % 4]
+            css = (":root { --brand: %s; --text: var(--brand); --soft: var(--missing-%s, var(--brand)) }\n" % (base, "x") +
+                   ".alias-text { color: var(--text); background-color: #fff }\n"
+                   ".alias-soft { color: var(--soft); background-color: white }\n") + css
         files[nme] = css.encode("utf-8")
     faults = {}
     for kind in rng.sample(FAULTS, rng.randrange(0, 4)):
